@@ -329,7 +329,7 @@ fn pipe_pair() -> Result<(OwnedFd, OwnedFd), String> {
 }
 
 fn run_fd(t: &mut Tape, cx: &mut Cx) -> Result<(), String> {
-    let adapter = t.below(9);
+    let adapter = t.below(10);
     let slen = t.idx(41);
     let content = t.bytes(slen);
     let ncalls = 1 + t.idx(5);
@@ -482,6 +482,33 @@ fn run_fd(t: &mut Tape, cx: &mut Cx) -> Result<(), String> {
                 let n = cmp_count(&what, &rv, &rs)?;
                 b.check_read(&what, n)?;
             }
+        }
+        9 => {
+            // Stdout: descriptor 1 is redirected to a memfd for the duration of the call
+            use std::os::fd::AsRawFd;
+            cx.label("stdout");
+            let bl = buflen(t);
+            let b = Bufs::new(bl, t, true);
+            let f = memfd(0);
+            let mut twin = memfd(0);
+            note!(cx, "Stdout.write(buf {})", bl);
+            // SAFETY: plain descriptor juggling; fd 1 is restored before anything is printed.
+            let (rv, rs) = unsafe {
+                let saved = libc::dup(1);
+                ensure!(saved >= 0, "dup(1) failed");
+                libc::dup2(f.as_raw_fd(), 1);
+                let mut out = std::io::stdout();
+                let rv = out.write_volatile(&b.fr.slice());
+                libc::dup2(saved, 1);
+                libc::close(saved);
+                (rv, twin.write(&b.sbuf))
+            };
+            cmp_count("Stdout.write", &rv, &rs)?;
+            b.fr.canaries_ok()?;
+            let got = pread_all(&f, 0, 64);
+            let want = pread_all(&twin, 0, 64);
+            ensure!(got == want, "bytes written to stdout {} differ from the twin's {}", hexs(&got), hexs(&want));
+            cx.nt("stdout_adapter");
         }
         7 | 8 => {
             // a descriptor that delivers its data in several short reads (datagrams of 1..9
